@@ -299,8 +299,8 @@ def families(tier):
         pre += ["0 <= s%d <= 1" % i, "0 <= k%d <= %d" % (i, nk), "0 <= n%d <= 3" % i]
     if not thorough:
         pre += ["k4 == %d" % nk, "n4 == 0", "s4 == 0", "s1 == 0", "s3 == 0", "n1 == 0 or n1 == 2", "n2 == 0 or n2 == 2", "n3 == 0 or n3 == 2",
-                "k3 == 0 or k3 == 1 or 5 <= k3 <= 8 or k3 == %d" % nk]
-        parts = parts_product(k1=(0, 1, 4, 5, 10), k2=range(nk))
+                "k3 == 0 or k3 == 1 or 5 <= k3 <= 7 or k3 == %d" % nk, "k2 <= 9"]
+        parts = parts_product(k1=(0, 1, 5, 10), k2=range(nk - 1))
     else:
         pre += ["k4 == %d" % nk, "n4 == 0", "s4 == 0", "s1 == 0", "s3 == 0"]
         parts = parts_product(k1=range(nk), k2=range(nk))
